@@ -47,14 +47,29 @@ def getMode (j : Json) : Except String (Mode Str) := do
     | none => pure none
   let key ← getStr (← j.getObjVal? "key")
   let ans (tag : String) : Msg Str := { key := some key, ok := true, body := tag.toList }
+  -- the POST completion of an "event first, then POST" request
+  let post : Except String (Post Str) := do
+    let pk := (j.getObjValAs? String "post").toOption.getD "accepted"
+    match pk with
+    | "body" => return .ok200 (some (ans "body"))
+    | "body-other" => return .ok200 b
+    | "unreadable" => return .ok200 none
+    | "accepted" => return .accepted
+    | "other" => return .other b
+    | "exc" => return .exc
+    | _ => throw s!"unknown post {pk}"
   match m with
   | "body" => return .body (ans "body")
+  | "body-other" => match b with
+      | some bb => return .body bb
+      | none => return .bodyUnreadable
   | "unreadable" => return .bodyUnreadable
   | "evack" => return .evThenAck (ans "ev")
   | "ackev" => return .ackThenEv (ans "ev")
   | "silence" => return .silence
   | "other" => return .otherStatus b
   | "exc" => return .exception
+  | "evpost" => return .evThenPost (ans "ev") (← post)
   | _ => throw s!"unknown mode {m}"
 
 def outJson (o : Out Str) : Json :=
@@ -83,7 +98,10 @@ def handle (j : Json) : Except String Json := do
   let reqs ← (← j.getObjValAs? (Array Json) "reqs").toList.mapM (fun e => do
     let k ← getStr (← e.getObjVal? "key")
     let m ← getMode e
-    pure (k, m))
+    -- an answer on the event stream after the request has ended is one more event
+    let late : List (Msg Str) := if (e.getObjValAs? Bool "late").toOption.getD false
+      then [{ key := some k, ok := true, body := "ev".toList }] else []
+    pure (k, m, late))
   let o := session dec url T cap conn chunks close reqs
   let ej := match o.enter with
     | .yielded t u => Json.mkObj [("k", Json.str "yielded"), ("t", toJson t), ("url", cps u)]
